@@ -2001,3 +2001,9 @@ m("C05", "functiondef-no-scope", "astutil.py",
                 if arg is not None:
                     self.visit(arg)
             for child in ast.walk(node):''')
+m("C11", "pi-text-plain-str", ZP,
+  '''            if isinstance(name, Token):
+                # keep the position: expressions in the instruction
+                # report errors against the template source
+                text = Token(text, name.pos - 2, name.source, name.filename)
+''', "")
